@@ -88,7 +88,78 @@ fn bound_values(c: &ManifestResourceConstraint) -> Vec<BigInt> {
     v
 }
 
+/// A balance built from the constraint's own bounds (usually satisfying it), then maybe moved by
+/// one atto / one id.
+fn near_witness(g: &mut Gen, s: Slot, c: &ManifestResourceConstraint) -> Option<Balance> {
+    if s == Slot::F {
+        let base: BigInt = match c {
+            ManifestResourceConstraint::NonZeroAmount => BigInt::from(1u8),
+            ManifestResourceConstraint::ExactAmount(d) | ManifestResourceConstraint::AtLeastAmount(d) => dec_to_big(*d),
+            ManifestResourceConstraint::General(gc) => match (&gc.lower_bound, &gc.upper_bound) {
+                (LowerBound::Inclusive(l), _) if g.bool() => dec_to_big(*l),
+                (_, UpperBound::Inclusive(u)) => dec_to_big(*u),
+                (LowerBound::Inclusive(l), _) => dec_to_big(*l),
+                (LowerBound::NonZero, _) => BigInt::from(1u8),
+            },
+            _ => return None,
+        };
+        let delta: i32 = match g.weighted(&[4, 1, 1]) {
+            0 => 0,
+            1 => -1,
+            _ => 1,
+        };
+        let moved = base + BigInt::from(delta);
+        return Some(Balance::Amount(moved.max(BigInt::zero()).min(DEC.max())));
+    }
+    let mut set: BTreeSet<usize> = match c {
+        ManifestResourceConstraint::NonZeroAmount => [0usize].into_iter().collect(),
+        ManifestResourceConstraint::ExactAmount(d) | ManifestResourceConstraint::AtLeastAmount(d) => {
+            let n = dec_to_big(*d) / one();
+            let n: usize = n.try_into().ok().filter(|n: &usize| *n <= UNIVERSE + 2)?;
+            (0..n).collect()
+        }
+        ManifestResourceConstraint::ExactNonFungibles(x) | ManifestResourceConstraint::AtLeastNonFungibles(x) => set_of(x),
+        ManifestResourceConstraint::General(gc) => {
+            let mut set = set_of(&gc.required_ids);
+            let want: usize = match &gc.lower_bound {
+                LowerBound::NonZero => 1,
+                LowerBound::Inclusive(l) => (dec_to_big(*l) / one()).try_into().ok().filter(|n: &usize| *n <= UNIVERSE + 2)?,
+            };
+            let pool: Vec<usize> = match &gc.allowed_ids {
+                AllowedIds::Allowlist(a) => set_of(a).into_iter().collect(),
+                AllowedIds::Any => (0..UNIVERSE + 3).collect(),
+            };
+            for i in pool {
+                if set.len() >= want {
+                    break;
+                }
+                set.insert(i);
+            }
+            set
+        }
+    };
+    match g.weighted(&[4, 1, 1]) {
+        1 => {
+            if let Some(x) = set.iter().next_back().copied() {
+                set.remove(&x);
+            }
+        }
+        2 => {
+            set.insert(g.index(UNIVERSE + 2));
+        }
+        _ => {}
+    }
+    Some(Balance::Ids(set))
+}
+
 fn gen_balance(g: &mut Gen, s: Slot, c: Option<&ManifestResourceConstraint>) -> Balance {
+    if let Some(c) = c {
+        if g.chance(3, 5) {
+            if let Some(b) = near_witness(g, s, c) {
+                return b;
+            }
+        }
+    }
     if s == Slot::F {
         let on_bound = c.map(bound_values).unwrap_or_default();
         let v = if !on_bound.is_empty() && g.chance(2, 3) {
